@@ -59,6 +59,7 @@ from __future__ import annotations
 import itertools
 import json as real_json
 import math
+import sys
 import re as real_re
 from fractions import Fraction
 from typing import Optional
@@ -1824,6 +1825,7 @@ class C11(Prop):
             lambda s: real_re.sub(r'"(f\d+)":', r'\1:', s),
             lambda s: s.replace("null", rng.choice(["undefined", "NaN"])),
             lambda s: ws + s + ws,
+            lambda s: s.replace("\\n", "\n").replace("\\t", "\t"),      # escapes written out: raw control characters in strings
             lambda s: inv + s,
             lambda s: ws + inv + s + rng.choice(["", inv, ws]),
             lambda s: s + inv,
@@ -2041,7 +2043,7 @@ class C11(Prop):
         ws_cases = []
         for cp in sorted(set(WS + [c + d for c in WS for d in (-1, 1)] + [0, 0x200b, 0xfeff, 0xd800])):
             raw = chr(cp) + '{"a": 1}' + chr(cp) + " "
-            ws_cases.append({"lines": [f"schema {spec}", "new none", f"foldx {hexs(raw)} s", f"fold {hexs(raw)} r",
+            ws_cases.append({"lines": [f"schema {spec}", "new none", f"foldx {hexs(raw)} s", f"fold {hexs(raw)} s", f"fold {hexs(raw)} r",
                                        f"foldx {hexs(raw)} le"], "note": "str.strip() code points"})
         # invisible code points that are NOT white space (byte order mark, zero-width and directional format characters,
         # non-blank controls, noncharacters, tag characters, blank-looking symbols) before / after / inside otherwise clean
@@ -2054,7 +2056,8 @@ class C11(Prop):
         placements = [("before", lambda c, d: c + d), ("after", lambda c, d: d + c),
                       ("behind leading blanks", lambda c, d: " \n" + c + " " + d + "\n"),
                       ("after the first token", lambda c, d: d[0] + c + d[1:]),
-                      ("after a colon", lambda c, d: d.replace(": ", ":" + c, 1))]
+                      ("after a colon", lambda c, d: d.replace(": ", ":" + c, 1)),
+                      ("inside a string value", lambda c, d: d.replace('"x"', '"x' + c + 'y"', 1).replace('"p"', '"p' + c + 'y"', 1))]
         if tier != "quick":
             placements += [("doubled", lambda c, d: c + c + d), ("both ends", lambda c, d: c + d + c),
                            ("before the last token", lambda c, d: d[:-1] + c + d[-1])]
@@ -2077,6 +2080,26 @@ class C11(Prop):
                         L += [f"fold {hexs(raw)} {st}", f"foldx {hexs(raw)} {st}"]
                     L += [f"heal 0 1/10 {hexs(raw)}", "stats"]
                     inv_cases.append({"lines": L, "note": f"white space JSON does not know (U+{cp:04X}) {pname}"})
+        # scalar documents (the only texts that reach the whole-string fallback of the lenient extraction: every pattern
+        # finds nothing that parses) for a schema whose fields all have defaults, with an invisible code point around them
+        for cp in (INVISIBLE if tier != "quick" else INVISIBLE_QUICK[:6]):
+            L = ["schema a:oid,b:osd", "new none"]
+            for doc in ('""', "42", "null"):
+                for raw in (chr(cp) + doc, doc + chr(cp)):
+                    for st in ("l", "none"):
+                        L += [f"fold {hexs(raw)} {st}", f"foldx {hexs(raw)} {st}"]
+            inv_cases.append({"lines": L + ["stats"], "note": f"invisible code point U+{cp:04X} around scalar documents, all-default schema"})
+        if tier != "quick":
+            # every control (Cc), format (Cf) and separator (Zs/Zl/Zp) code point of Unicode in front of / behind the nested
+            # document, STRICT alone, both folds (the extractor evaluates the same domain on every quick run:
+            # c11_extracted_strict_trims_white_space_only; here the oracle judges each fold)
+            import unicodedata
+            for cp in range(sys.maxunicode + 1):
+                if unicodedata.category(chr(cp)) in ("Cc", "Cf", "Zs", "Zl", "Zp") and cp not in INVISIBLE:
+                    L = [f"schema {nest_spec}", "new none"]
+                    for raw in (chr(cp) + nest_doc, nest_doc + chr(cp)):
+                        L += [f"fold {hexs(raw)} s", f"foldx {hexs(raw)} s"]
+                    inv_cases.append({"lines": L, "note": f"U+{cp:04X} in front of / behind clean nested JSON, STRICT alone"})
         ctor_cases = []
         for ctor in ["none", "omit", "-", "s", "r", "le", "rs"]:
             for call in ["none", "omit", "-", "e", "sl"]:
